@@ -56,4 +56,9 @@ Definition run_all (bi : list name) (ns : list (list name)) (p : program) : stri
             ("exact", show_bool (exact_b bi ns p));
             ("ustage", show_nat (ustage_of bi ns p));
             ("unused_ok", show_bool (unused_sound_b bi ns p));
+            ("tstage", show_nat (tstage_of p));
+            ("tsound", show_bool (tsound_b bi ns p));
+            ("tprecise", show_bool (tprecise_b bi ns p));
+            ("dx", show_bool (dx_docs p));
+            ("unused_doc_ok", show_bool (unused_doc_sound_b bi ns p));
             ("trace", run_pysem bi ns p)].
